@@ -335,10 +335,10 @@ def encode_evm(lf):
     for k, v in lf.lookup_evidence.items():
         if type(k) is not int or k <= 0:
             raise ValueError("lookup_evidence key %r" % (k,))
-        if v == 0 and v is not None:
-            out.append((k, True))
-        elif v is None:
+        if v is None:
             out.append((k, False))
+        elif type(v) is int and v == 0:
+            out.append((k, True))
         else:
             raise ValueError("lookup_evidence value %r is not TRUE/FALSE" % (v,))
     return sorted(out)
@@ -490,37 +490,55 @@ def load_problog():
 def run_case(case):
     """Returns a dict with everything the parent needs (encoded; no ProbLog objects)."""
     kind, payload, max_ids = case
+    base, flags = kind.split("+")[0], set(kind.split("+")[1:])
+    pe, kn = "pe" in flags, "kn" in flags     # propagate_evidence=True / keep_named=True
     res = {"kind": kind, "payload": payload, "status": "ok", "violations": [], "notes": []}
     load_problog()   # never import under the grounding alarm (a half-initialised package loses its transformations)
     try:
-        lf = pl.with_timeout(ground_text, 20, payload) if kind == "text" else build_formula(payload)
+        lf = pl.with_timeout(ground_text, 20, payload, pe) if base == "text" else build_formula(payload)
     except BaseException as e:  # noqa
         if isinstance(e, (KeyboardInterrupt, SystemExit)):
             raise
         res["status"] = "ground:" + pl.err_class(e)
         return res
+    if pe and base == "builder":
+        try:
+            attach_lookup_evidence(lf)
+        except BaseException as e:  # noqa
+            if isinstance(e, (KeyboardInterrupt, SystemExit)):
+                raise
+            res["status"] = "propagate:" + pl.err_class(e)
+            return res
     from problog.formula import LogicDAG
     from problog.cnf_formula import CNF
     intern = Intern()
     try:
         F = encode_nodes(lf, intern)
+        evm = encode_evm(lf)
     except ValueError as e:
         res["status"] = "encode:" + str(e)
         return res
+    if pe and evm is None:
+        res["status"] = "encode:no lookup_evidence on a formula grounded with propagate_evidence=True"
+        return res
     groups, extras = encode_ainfo(lf, intern)
     labeled = labeled_of(lf)
+    if kn:
+        labeled = labeled + [(q, n, l) for q, n, l in lf.get_names_with_label() if l == lf.LABEL_NAMED]
     evidence = evidence_of(lf)
     res["F"] = F
+    res["evm"] = evm or []
     res["ainfo"] = (groups, extras)
     res["labeled_keys"] = [n for _, n, _ in labeled]
     res["evidence_keys"] = [n for _, n, _ in evidence]
+    res["evidence_want"] = [v for _, _, v in evidence]
     res["empty_disj"] = any(nd[0] != "atom" and len(nd[1]) == 0 for nd in F)
     res["cyclic"] = not is_topological(F)
     res["negation"] = any(c < 0 for nd in F if nd[0] != "atom" for c in nd[1])
     res["stratified"] = is_stratified(F)
     # ---------------- implementation: break_cycles
     try:
-        dag = LogicDAG.create_from(lf)
+        dag = LogicDAG.create_from(lf, keep_named=True) if kn else LogicDAG.create_from(lf)
     except BaseException as e:  # noqa
         if isinstance(e, (KeyboardInterrupt, SystemExit)):
             raise
@@ -541,10 +559,19 @@ def run_case(case):
         res["status"] = "too_many_atoms"
         return res
     # ---------------- judge: least-model semantics vs the acyclic program, every assignment
-    pairs = list(zip(res["labeled_keys"], res["D_labeled"])) + list(zip(res["evidence_keys"], res["D_evidence"]))
+    # Without a lookup_evidence map every name must agree in every world.  With one (propagate_evidence=True) the
+    # evidence names must agree in every world, the query-like names in every world that satisfies the evidence
+    # and the annotated-disjunction constraints (at most one head of a group) -- the worlds P(q|e) is made of.
+    lpairs = list(zip(res["labeled_keys"], res["D_labeled"]))
+    epairs = list(zip(res["evidence_keys"], res["D_evidence"]))
+    ad_members = {}
+    for aid, grp, is_extra in groups:
+        if not is_extra:
+            ad_members.setdefault(grp, []).append(aid)
     bad = None
     two_valued = True
     topo_D = is_topological(D)
+    relevant = 0
     if not topo_D:
         res["violations"].append(("dag-not-acyclic", "LogicDAG has a child with a key >= its parent"))
     else:
@@ -555,6 +582,14 @@ def run_case(case):
                 two_valued = False
                 break
             dv = dag_values(dag, assign, intern)
+            pairs = epairs
+            if not pe:
+                pairs = lpairs + epairs
+                relevant += 1
+            elif (all(v == 0 or key_value(s, n) == (v > 0) for n, v in zip(res["evidence_keys"], res["evidence_want"]))
+                  and all(sum(1 for i in ms if assign.get(i)) <= 1 for ms in ad_members.values())):
+                pairs = lpairs + epairs
+                relevant += 1
             for (kf, kd) in pairs:
                 if key_value(s, kf) != key_value(dv, kd):
                     bad = (assign, kf, kd, key_value(s, kf), key_value(dv, kd))
@@ -564,10 +599,12 @@ def run_case(case):
         if not two_valued:
             res["status"] = "no_stable_model"     # not stratified: outside the property (C02)
             return res
+        res["relevant_worlds"] = relevant
         if bad:
-            res["violations"].append(("break-cycles-value",
-                                      "node %r of the cyclic program has least-model value %r but its LogicDAG node %r has value %r under %r"
-                                      % (bad[1], bad[3], bad[2], bad[4], {k: v for k, v in bad[0].items()})))
+            res["violations"].append(("break-cycles-value" + ("-under-propagated-evidence" if pe else ""),
+                                      "node %r of the cyclic program has least-model value %r but its LogicDAG node %r has value %r under %r%s"
+                                      % (bad[1], bad[3], bad[2], bad[4], {k: v for k, v in bad[0].items()},
+                                         " (a world that satisfies the evidence; lookup_evidence = %r)" % (res["evm"],) if pe else "")))
     # ---------------- implementation: Clark's completion
     try:
         cnf = CNF.create_from(dag)
@@ -669,9 +706,9 @@ def generate(ctx):
 
 
 def replay_text(res):
-    if res["kind"] == "text":
-        return {"kind": "text", "program": res["payload"]}
-    return {"kind": "builder", "ops": res["payload"]}
+    if res["kind"].split("+")[0] == "text":
+        return {"kind": res["kind"], "program": res["payload"]}
+    return {"kind": res["kind"], "ops": res["payload"]}
 
 
 def run(ctx):
@@ -708,10 +745,10 @@ def run(ctx):
     cases = []
     if ctx.replay:
         r = ctx.replay.get("replay", ctx.replay)
-        if r.get("kind") == "text":
-            cases.append(("text", r["program"], 16))
-        elif r.get("kind") == "builder":
-            cases.append(("builder", r["ops"], 16))
+        if r.get("kind", "").split("+")[0] == "text":
+            cases.append((r["kind"], r["program"], 16))
+        elif r.get("kind", "").split("+")[0] == "builder":
+            cases.append((r["kind"], r["ops"], 16))
     else:
         for f in sorted(os.listdir(os.path.join(vf.CORPUS, "C09"))) if os.path.isdir(os.path.join(vf.CORPUS, "C09")) else []:
             import json
@@ -720,7 +757,7 @@ def run(ctx):
             if r.get("requires_class") and not det_stream:
                 ctx.count("corpus case held back until known_findings lists " + r["requires_class"])
                 continue
-            cases.append((r["kind"], r["program"] if r["kind"] == "text" else r["ops"], 16))
+            cases.append((r["kind"], r["program"] if r["kind"].split("+")[0] == "text" else r["ops"], 16))
         ntext = ctx.n(120, 4000)
         nbuild = ctx.n(150, 5000)
         ndense = ctx.n(80, 3000)
